@@ -186,7 +186,25 @@ func genLimit(t *rapid.T) (src []byte, exec bool, note string) {
 	}
 	var sb strings.Builder
 	exec = true
-	switch fam := gen.Uniform(t, 12, "limitfamily"); fam {
+	switch fam := gen.Uniform(t, 14, "limitfamily"); fam {
+	case 12: // the overflowing operand is a field, a builtin or a variable, inside a block
+		n := near(1024)
+		opnd := gen.Pick(t, "operand", []string{"f", "TYPE", "NAME", "v", "outer"})
+		sb.WriteString("def o { outer = 2\ndef b \"n\" { f = 1\nvar v = 3\nx = ")
+		sb.WriteString(strings.Repeat(opnd+"+(", n))
+		sb.WriteString(opnd)
+		sb.WriteString(strings.Repeat(")", n))
+		sb.WriteString("\n}\n}\n")
+		note = fmt.Sprintf("stack-depth-by-%s n=%d", opnd, n)
+	case 13: // a full stack of variables in a block, then one more operand of each kind
+		n := near(1024)
+		sb.WriteString("def b { f = 1\n")
+		for i := 0; i < n; i++ {
+			fmt.Fprintf(&sb, "var v%d\n", i)
+		}
+		sb.WriteString(gen.Pick(t, "lastpush", []string{"eval f", "g = f + f", "eval TYPE", "print v0", "eval 1", "eval nil", "g = \"s\""}))
+		sb.WriteString("\n}\n")
+		note = fmt.Sprintf("variables-then-push n=%d", n)
 	case 0: // operand stack depth by nesting
 		n := near(1024)
 		sb.WriteString("print ")
